@@ -6,7 +6,19 @@ D="$(realpath "$1")"
 W=/tmp/seedwork/VERIFY
 if [ ! -d "$W" ]; then git -C /repo worktree add -q --detach "$W" HEAD || exit 2; fi
 cd "$W" && git checkout -q --detach "$(git -C /repo rev-parse HEAD)" && git checkout -q -- . && git clean -fdq src
-demo_cmd=$(python3 -c "import json,sys; print(json.load(open('$D/meta.json'))['demo'])")
+demo_cmd=$(python3 - "$D" <<'PY'
+import json,sys,os
+d=sys.argv[1]
+demo=json.load(open(os.path.join(d,'meta.json'))).get('demo','')
+if os.path.exists(os.path.join(d,'demo.sh')):
+    print('bash ./demo.sh')
+elif 'cargo test' in demo:
+    print(demo[demo.index('cargo test'):].split('&&')[0].strip())
+else:
+    print(demo)
+PY
+)
+echo "demo command: $demo_cmd"
 git apply "$D/patch.diff" || { echo "CONFIRM $D: patch does not apply"; exit 1; }
 suite=$(cargo test --offline 2>&1 | grep -E "^test result" | head -1)
 echo "suite with patch: $suite"
